@@ -22,8 +22,21 @@ GSpec == GInit /\ [][GNext]_gvars /\ WF_gvars(GNext /\ Run)
 
 \* passes: what a run without the forced extra pass needs (hist also lists the extra pass when WithExtra)
 Export == [prog |-> prog, org |-> org, errs |-> m.errs,
-           passes |-> Len(hist') - (IF snap # NoSnap THEN 1 ELSE 0), hist |-> hist', lay |-> m.lay,
+           passes |-> Len(hist') - (IF snap # NoSnap THEN 1 ELSE 0), hist |-> hist',
+           \* the layout a run WITHOUT the forced extra pass ends with (for definite programs the extra pass
+           \* reproduces it: ExtraPassIsStutter)
+           lay |-> IF snap # NoSnap THEN snap.lay ELSE m.lay,
            vals |-> Vals(m), patched |-> m.patched, solvable |-> Solvable(prog, org),
-           equback |-> EquBackward(prog)]
+           equback |-> EquBackward(prog),
+           \* definite: C01 gives the program a definite outcome (no undeclared forward reference to a section-
+           \* local name that an outer scope also has); ufree: every name has one spelling, so the program means
+           \* the same with option -U
+           \* csens: the program is written for option -U (spellings are names)
+           \* accident: the program has no definite outcome AND the modelled assembler ends with an unresolved layout
+           \* (what the manual describes under FORWARD; the harness expects to see it reproduced by the model)
+           \* shadow: a name is used where two scopes of its path define it (the harness keeps all of these)
+           definite |-> ScopeSafe(prog), ufree |-> CaseFree(prog), csens |-> CaseSens, shadow |-> Shadowed(prog),
+           accident |-> IF ScopeSafe(prog) THEN FALSE
+                        ELSE m.errs = 0 /\ ~Valid(prog, org, IF snap # NoSnap THEN snap.lay ELSE m.lay)]
 OnDone == (phase # "done" /\ phase' = "done") => PrintT(<<"OUT", ToJson(Export)>>)
 =============================================================================
